@@ -6,6 +6,12 @@
 #include <cmath>
 #include <map>
 
+#include <fcntl.h>
+#include <sys/file.h>
+#include <sys/wait.h>
+#include <unistd.h>
+
+#include "common/alloc_monitor.h"
 #include "common/canon.h"
 #include "common/codec.h"
 #include "common/geo.h"
@@ -155,13 +161,15 @@ struct Run {
   std::string bytes;
 };
 
-static Run EncodeDecode(const Built &b, const vf::EncOpts &o, Reporter &rep, const std::string &desc, bool report_c01_failures) {
+static Run EncodeDecode(const Built &b, const vf::EncOpts &o, Reporter &rep, const std::string &desc, bool report_c01_failures, const std::string *pre_encoded = nullptr) {
   Run run;
   std::unique_ptr<Mesh> mesh;
   std::unique_ptr<PointCloud> pcu;
   const PointCloud *pc;
   if (b.g.is_mesh) { mesh = vf::ToMesh(b.g); pc = mesh.get(); } else { pcu = vf::ToPointCloud(b.g); pc = pcu.get(); }
-  vf::EncResult er = vf::Encode(b.g, *pc, mesh.get(), o);
+  vf::EncResult er;
+  if (pre_encoded) { er.bytes = *pre_encoded; }
+  else er = vf::Encode(b.g, *pc, mesh.get(), o);
   if (!er.status.ok()) { run.refuse = er.status.error_msg(); return run; }
   run.bytes = er.bytes;
   rep.stage(1, "stream.drc", er.bytes.data(), er.bytes.size());
@@ -197,13 +205,44 @@ int main(int argc, char **argv) {
     const bool thorough = rep.args().tier == "thorough";
     const bool c12 = rep.args().prop == "C12";
     // ---- geometry -----------------------------------------------------------------
-    const bool point_cloud = r.below(3) == 0;
+    // Smooth height field quantized to 24..30 bits and coded with Edgebreaker at speed 0/1 (constrained
+    // multi-parallelogram prediction): the only way into that scheme's high-bit arithmetic. Everywhere else the
+    // scheme is kept below 19 bits (AvoidHugeEntropyTables), because its entropy tracker needs memory
+    // proportional to the largest residual; on a smooth regular grid the residuals stay small. An allocation cap
+    // turns an unexpectedly large table into a skipped case.
+#if defined(__SANITIZE_ADDRESS__)
+    // Not in the sanitizer slice: at these bit depths the *encoder* of this scheme adds predictions with plain
+    // signed int arithmetic (overflow UB; wraps in practice, the decoder uses AddAsUnsigned). Encoder-side UB is
+    // not among the listed properties (DESIGN, generator restrictions).
+    const bool smooth_hi = false, giant = false;
+#else
+    // "giant": the same at 30 bits, where the unchanged encoder transiently needs 8-16 GiB (entropy table indexed by a
+    // residual of up to 2^32): a handful of cases per run, one at a time machine-wide (file lock), 24 GiB cap.
+    const bool giant = !c12 && r.below(6000) == 0;
+    const bool smooth_hi = giant || (!c12 && r.below(12) == 0);
+#endif
+    const bool point_cloud = !smooth_hi && r.below(3) == 0;
     vf::Topo topo;
-    if (point_cloud) topo = PointTopo(r, 2 + r.below(thorough ? 2000 : 400));
+    int smooth_bits = 0;
+    if (smooth_hi) {
+      // residuals of the fallback (delta) configuration are about 2^bits / w: finer grids for deeper quantization
+      smooth_bits = giant ? 30 : 24 + static_cast<int>(r.below(5));
+      const int lo = giant ? 14 : smooth_bits >= 27 ? 24 : 6;
+      const int w = lo + r.below(giant ? 12 : thorough ? 80 : 40), h = lo + r.below(giant ? 12 : thorough ? 80 : 40);
+      vf::GridPatch(topo, w, h, false, false, static_cast<float>(r.uniform(0, 3)));
+      topo.name = "smooth-grid";
+    }
+    else if (point_cloud) topo = PointTopo(r, 2 + r.below(thorough ? 2000 : 400));
     else { do { topo = vf::GenTopo(r, r.below(5) == 0 ? 2 : (r.below(thorough ? 4 : 12) == 0 ? 4 : 3)); } while (!DropUnusedVertices(&topo)); }
     Target tg;
     GenValues(r, topo.nverts, &tg);
-    const bool target_is_position = tg.nc == 3 && r.below(2);
+    if (smooth_hi) {
+      tg.nc = 3; tg.style = "smooth-grid"; tg.bits = smooth_bits;
+      const float sc = Mag(r), off = r.below(2) ? 0.f : static_cast<float>(r.uniform(-10, 10) * sc);
+      tg.vals.resize(topo.nverts * 3);
+      for (uint32_t v = 0; v < topo.nverts; ++v) for (int c = 0; c < 3; ++c) tg.vals[v * 3 + c] = topo.coord[v][c] * sc + off;
+    }
+    const bool target_is_position = smooth_hi || (tg.nc == 3 && r.below(2));
     // explicit quantization (always for C12, sometimes for C04)
     if (c12 || r.below(3) == 0) {
       Bound nb = MakeBound(tg);
@@ -229,7 +268,8 @@ int main(int argc, char **argv) {
       if (!target_is_position && (point_cloud || r.below(2))) o.qbits[0] = 5 + r.below(12);  // position quantized too (needed for kd-tree)
       // prediction schemes admissible for the target's attribute type
       for (size_t a = 0; a < o.pred.size(); ++a) if (o.pred[a] == MESH_PREDICTION_GEOMETRIC_NORMAL) o.pred[a] = -100;
-      vf::AvoidHugeEntropyTables(bb.g, &o);
+      if (smooth_hi) { o.expert = true; o.method = 1; o.enc_speed = static_cast<int>(r.below(2)); o.dec_speed = o.enc_speed; for (auto &pp : o.pred) pp = -100; o.builtin = -1; }
+      else vf::AvoidHugeEntropyTables(bb.g, &o);
       return o;
     };
     vf::EncOpts o = make_opts(b);
@@ -239,7 +279,55 @@ int main(int argc, char **argv) {
                              (tg.explicit_q ? " explicit" : " auto") + (target_is_position ? " target=POSITION" : " target=other") + " | " + o.Describe() + ExplicitStr(tg);
     rep.note(desc);
     rep.stage(0, "values.f32", tg.vals.data(), std::min<size_t>(tg.vals.size() * 4, 1 << 20));
-    Run run = EncodeDecode(b, o, rep, desc, !c12);
+    Run run;
+    if (smooth_hi) {
+      // The constrained multi-parallelogram *encoder* can die on 27..30-bit input (a residual of INT_MIN becomes
+      // symbol 2^32-1; ShannonEntropyTracker then resizes its table to 0 entries and indexes it) or ask for GiBs:
+      // an encoder defect outside the listed properties. The encode runs in a child process under an allocation
+      // cap; if it dies or hits the cap there is no stream to judge and the case is skipped.
+      std::string enc;
+      bool got = false;
+      std::string why = "encoder died (smooth high-bit case skipped)";
+      int fds[2];
+      if (pipe(fds) == 0) {
+        fflush(nullptr);
+        pid_t cp = fork();
+        if (cp == 0) {
+          close(fds[0]);
+          signal(SIGSEGV, SIG_DFL); signal(SIGABRT, SIG_DFL); signal(SIGBUS, SIG_DFL);
+          std::string msg;
+          try {
+            int lock_fd = -1;
+            if (giant) { lock_fd = open((vf::VerifRoot() + "/build/giant.lock").c_str(), O_CREAT | O_RDWR, 0666); if (lock_fd >= 0) flock(lock_fd, LOCK_EX); }
+            if (giant) vf::AllocBegin(20ll << 30, 24ll << 30); else vf::AllocBegin(512ll << 20, 1024ll << 20);
+            std::unique_ptr<Mesh> m = vf::ToMesh(b.g);
+            vf::EncResult er = vf::Encode(b.g, *m, m.get(), o);
+            vf::AllocEnd();
+            msg = er.status.ok() ? "O" + er.bytes : std::string("R") + er.status.error_msg();
+          } catch (const std::bad_alloc &) { msg = "Rallocation cap (smooth high-bit case skipped)"; }
+          uint64_t n = msg.size();
+          (void)!write(fds[1], &n, 8);
+          size_t off = 0;
+          while (off < msg.size()) { ssize_t w = write(fds[1], msg.data() + off, msg.size() - off); if (w <= 0) break; off += static_cast<size_t>(w); }
+          _exit(0);
+        }
+        close(fds[1]);
+        uint64_t n = 0;
+        std::string msg;
+        if (read(fds[0], &n, 8) == 8 && n < (1ull << 30)) {
+          msg.resize(n);
+          size_t off = 0;
+          while (off < n) { ssize_t rd = read(fds[0], &msg[off], n - off); if (rd <= 0) break; off += static_cast<size_t>(rd); }
+          if (off == n && n > 0) { if (msg[0] == 'O') { enc = msg.substr(1); got = true; } else why = msg.substr(1); }
+        }
+        close(fds[0]);
+        int cst = 0;
+        waitpid(cp, &cst, 0);
+      }
+      if (giant) rep.count(got ? "giant_30bit_encoded" : "giant_30bit_skipped");
+      if (got) { run = EncodeDecode(b, o, rep, desc, true, &enc); if (run.ok) rep.count("smooth_high_bits/" + std::to_string(tg.bits)); }
+      else { run.ok = false; run.refuse = why; }
+    } else run = EncodeDecode(b, o, rep, desc, !c12);
     if (!run.ok) { rep.count("encoder_refused/" + run.refuse); rep.held(0, false); return; }
     const Bound bd = MakeBound(tg);
     std::vector<Reporter::Artifact> arts = {{"values.f32", std::string(reinterpret_cast<const char *>(tg.vals.data()), tg.vals.size() * 4)}, {"stream.drc", run.bytes}, {"case.txt", desc}};
